@@ -105,6 +105,7 @@ class PInterp(FHInterp):
         FHInterp.__init__(self, repo, no_inline=no_inline, extra_hook=self._phook)
         self.yield_hook = None
         self._logged = set()
+        self.divisions = []  # divisions by a non-constant affine form: (divisor, facts at that point)
 
     def note_event(self, ev):
         """Record an event once per (site, abstract operands): receivers are re-evaluated by the call machinery."""
@@ -271,6 +272,10 @@ class PInterp(FHInterp):
 
     # -- operators --------------------------------------------------------------------------------------
     def binop(self, op, a, b, st):
+        if isinstance(op, (ast.Div, ast.FloorDiv, ast.Mod)):
+            d = as_lin_val(self.undelegate(b))
+            if d is not None and not d.is_const():
+                self.divisions.append({"divisor": d, "facts": st.facts.copy(), "dividend": a})
         pa, pb = as_pv(a), as_pv(b)
         if pa is not None and pb is None and not isinstance(b, (Alt,)):
             return pa.then("arith")
@@ -706,6 +711,22 @@ def r1_update_y_X(ctx, repo, k, fn):
                       "cutoff is moved only for a non-empty batch (len(y) >= 1 entailed at the write)",
                       "cutoff is moved without a dominating non-empty test: y.index[-1] fails / is stale for the empty "
                       "batches that update(allow_empty) admits", loc)
+        # the remembered series is re-stored together with the new batch wherever the cutoff moves: the default update
+        # refits on the remembered data, which resets the cutoff to *its* last time point
+        ys = [e for e in it.stores if e["obj"] is me and e["attr"] == "_y"]
+        for e in cs:
+            mine = [y_ for y_ in ys if all(y_["atoms"].get(k_, v_) == v_ for k_, v_ in e["atoms"].items())]
+            if not mine:
+                ctx.violation("R1", cons + ":remembers-batch", "the cutoff is moved but the remembered series is not extended by the new "
+                              "batch: update() refits on the stale series and fit resets the cutoff to its old last time point", loc,
+                              witness={"history": "fit(y[:30]); update(y[30:]); cutoff is still that of y[:30]"})
+            elif all(value_mentions(y_["val"], "y") for y_ in mine):
+                ctx.ok("R1", cons + ":remembers-batch", "the remembered series is re-stored from the new batch (merge order: C10)", loc)
+            elif any(isinstance(y_["val"], (Opq, Arr)) for y_ in mine):
+                ctx.violation("R1", cons + ":remembers-batch", "the remembered series is re-stored without the new batch: %r"
+                              % ([y_["val"] for y_ in mine],), loc)
+            else:
+                ctx.undecided("R1", cons + ":remembers-batch", "stored series not interpretable: %r" % ([y_["val"] for y_ in mine],), loc)
         # accepting paths: the empty batch leaves the cutoff alone, every path that admits a non-empty batch moves it
         quiet = [s for s, _ in rets if not any(compatible(e, s) for e in cs)]
         if quiet and not any(s.facts.entails_cmp(ynew.length, "<=", 0) is not None for s in quiet) \
@@ -1277,6 +1298,23 @@ def rule_r3(ctx, repo):
                                                                            "relative" if rel else "absolute")
                 loc = ctx.loc(k.module, fn)
                 n = judge_steps(ctx, it, cons, [v for _, v in rets], rel, loc)
+                # finite for finite data: an affine divisor must be non-zero on its path (validated domain: w >= 1, sp >= 2)
+                seen_div = set()
+                for dv in it.divisions:
+                    d, f = dv["divisor"], dv["facts"]
+                    if repr(d) in seen_div or not d.symbols() <= {"w", "sp"}:
+                        continue
+                    seen_div.add(repr(d))
+                    nonzero = f.entails_cmp(d, ">=", 1) is not None or f.entails_cmp(d, "<=", -1) is not None
+                    reach0 = f.entails_cmp(d, ">=", 0) is not None or f.entails_cmp(d, "<=", 0) is not None
+                    if nonzero:
+                        ctx.ok("R3", cons + ":finite-division", "divisor %r is non-zero on its path" % d, loc)
+                    elif reach0:
+                        ctx.violation("R3", cons + ":finite-division", "division by %r, which the guards on its path only bound by 0: the "
+                                      "boundary configuration divides by zero and numpy returns inf / nan without raising -- non-finite "
+                                      "forecasts for finite data" % d, loc, witness={"divisor": repr(d), "boundary": "%r == 0" % d})
+                    else:
+                        ctx.undecided("R3", cons + ":finite-division", "cannot bound the divisor %r away from zero" % d, loc)
                 bad = [v for _, v in rets if carries_padding(v)]
                 if strategy == "mean" and seasonal:
                     ctx.check(not bad, "R3", cons + ":padding-ignored",
